@@ -244,6 +244,9 @@ TRUSTED = [
     "behind a wrapper whose Get reports shut-down when nothing is queued and whose AddRateLimited re-adds without delay (an item failing 6 times in a row "
     "waits for the next step); the registration calls themselves and the informer "
     "machinery of client-go are not exercised; generation / resourceVersion bookkeeping of the API server is reproduced by the harness",
+    "all histories of a run share one harness process and hence the package-level state of the code under test; the first-time reference of the "
+    "specification (what a first synchronization of this VirtualServer creates on an empty cluster) is computed by a child process per distinct "
+    "VirtualServer (the harness binary with -fresh-one), so it cannot be contaminated by earlier synchronizations",
     "library verdicts used as oracles and passed to the model: time.ParseDuration, validation.IsValidIP, netutils.ParseIPSloppy; the cert-manager "
     "key-usage table is transcribed (23 names) and compared through the harness",
 ]
